@@ -274,6 +274,36 @@ Section Model.
 End Model.
 
 (* ------------------------------------------------------------------ *)
+(* Session level (cracking_session.py / pcfg_grammar.py), as far as the OMEN
+   restore needs it: the .sav option guessing_info/omen_guess_number and the
+   .omn file.  [cleared] says whether the code ever removes the option again
+   (gen/Consts_gen.v: omen_number_cleared; as coded it never does). *)
+Record sess_save := mk_save {
+  sv_number : option nat;        (* omen_guess_number in the save config *)
+  sv_omn    : option saved       (* content of <session>.omn *)
+}.
+Definition sess_empty : sess_save := mk_save None None.
+
+(* a quit: omen_generate_guesses pickles the state and sets omen_exit when the
+   quit is seen inside a Markov level; _save_session then sets the option.  A
+   quit outside a Markov level leaves both as they are. *)
+Definition sess_quit (cfg : sess_save) (omen_exit : bool) (num : nat) (state : saved) : sess_save :=
+  if omen_exit then mk_save (Some num) (Some state) else cfg.
+
+(* run(load_session=True): has_option(omen_guess_number) -> restore_omen from
+   the .omn.  Returns the restored generator state (None: no OMEN restore) and
+   the save config the resumed session continues with. *)
+Definition sess_restore (cleared : bool) (cfg : sess_save) : option saved * sess_save :=
+  match sv_number cfg with
+  | Some _ => (sv_omn cfg, if cleared then mk_save None (sv_omn cfg) else cfg)
+  | None => (None, cfg)
+  end.
+
+(* the main loop after a pre-terminal: pop; None -> return WITHOUT saving;
+   otherwise the quit check saves.  true = the session state was saved. *)
+Definition loop_saves (next_pop_exists quit : bool) : bool := next_pop_exists && quit.
+
+(* ------------------------------------------------------------------ *)
 (* An indexed representation of CP.level, built in one pass over the lines
    (prefix -> level -> characters); [cp_fast G] is what the correspondence
    runs, [cp_fast_ok] (OmenProofs.v) proves it equal to [cp_at G]. *)
